@@ -53,3 +53,18 @@ UNITS += [Unit('jd_sobj', 'wrappers/jd.cpp', defs=CONT, cuts={'CUT_PV_ALL': r'12
     'CUT_SKEY': r'JsonDeserializerI7VReaderE7skipKeyEv'})]
 OBS.append(Ob(['C15', 'C10', 'C03', 'C11', 'C16'], 'skip_object_step', 'jd_sobj', 'harness/jd_cont.c', 'h_skip_object', defs=['UNIT_H="jd_sobj.h"', 'NB=3'], unwind=6, fs='none', cap=400, hunwind=12,
     desc='skipObject one activation (keys and values cut): code / consumed / keys / values / limit equal the reference object recogniser', bound="'{' + all continuations of 3 bytes, all limits, every key / value behaviour allowed by the contracts (<= 4 members)"))
+UNITS += [Unit('jd_pobj', 'wrappers/jd.cpp', defs=CONT, cuts={'CUT_PV_ALL': r'12parseVariantINS1_14AllowAllFilterE', 'CUT_SV': r'11skipVariantE', 'CUT_PKEY': r'JsonDeserializerI7VReaderE8parseKeyEv',
+    'CUT_GETMEMBER': r'10ObjectData9getMemberINS1_19StaticStringAdapterE', 'CUT_SB_SAVE': r'13StringBuilder4saveEv$', 'CUT_ADD_MEMBER': r'10ObjectData9addMemberIPNS1_10StringNodeE', 'CUT_VCLEAR': r'11VariantData5clearEPNS1_15ResourceManagerE$'})]
+OBS.append(Ob(['C01', 'C15', 'C10', 'C03', 'C05', 'C16'], 'parse_object_step', 'jd_pobj', 'harness/jd_cont.c', 'h_parse_object', defs=['UNIT_H="jd_pobj.h"', 'NB=3'], unwind=6, fs='none', cap=400, hunwind=12,
+    desc='parseObject<AllowAll> one activation (key scanner, member lookup/creation, clear and values cut): token discipline, limit, repeated key parsed into the existing member after exactly one clear, new key saved+added once, NoMemory on a failed member slot',
+    bound="'{' + all continuations of 3 bytes, all limits, every key / lookup / allocation / value behaviour allowed by the contracts"))
+# other input kinds (C03: the result depends on the bytes, not on the reader): the same harnesses on the library's own
+# zero-terminated Reader<const char*> (READER=1, buffer exactly sized up to its terminator) and BoundedReader (READER=2)
+for rd, nm in [(1, 'zt'), (2, 'bounded')]:
+    un = 'jd_r%d' % rd
+    UNITS.append(Unit(un, 'wrappers/jd.cpp', defs=SM + ['READER=%d' % rd]))
+    UR = ['UNIT_H="%s.h"' % un, 'HAVE_POS=0']
+    OBS.append(Ob(['C03', 'C01'], 'pqs_n3_' + nm, un, 'harness/jd_str.c', 'h_pqs', defs=UR + ['NB=3'], unwind=7, lunwind=PQS1, fs='none', cap=300, hunwind=24,
+        desc='parseQuotedString through the %s reader == the same reference unescaper; no read beyond the terminator / size' % ('zero-terminated Reader<const char*>' if rd == 1 else 'BoundedReader<const char*>'), bound='either quote + all strings of 3 following bytes'))
+    OBS.append(Ob(['C03'], 'sqs_n4_' + nm, un, 'harness/jd_str.c', 'h_sqs', defs=UR + ['NB=4'], unwind=8, fs='none', cap=300, hunwind=24,
+        desc='skipQuotedString through the %s reader' % ('zero-terminated' if rd == 1 else 'bounded'), bound='either quote + all strings of 4 bytes'))
